@@ -199,16 +199,18 @@ def prev_line_shift(pre, ins, post, v):
 from contracts.c04_ignore import block_scan, block_ignores, is_start, is_end, start_rules  # noqa: E402
 
 
-@lemma(props=["C13"], types=dict(rest=SeqOf(Str), i=Int, in_block=Bool, rules=SeqOf(Str), vline=Int, rule_id=Str),
+@lemma(props=["C13"], types=dict(rest=SeqOf(Str), i=Int, in_block=Bool, rules=SeqOf(Str), covers=Bool, vline=Int, rule_id=Str),
        name="block-scan-depends-on-line-numbers-only-relatively")
-def block_index_shift(rest, i, in_block, rules, vline, rule_id):
+def block_index_shift(rest, i, in_block, rules, covers, vline, rule_id):
     """Renumbering the remaining lines and the finding by the same offset does not change the block verdict."""
     if len(rest) == 0:
-        return block_scan(rest, i + 1, in_block, rules, vline + 1, rule_id) == block_scan(rest, i, in_block, rules, vline, rule_id)
-    ih(block_index_shift, rest[1:], i + 1, True, start_rules(rest[0]), vline, rule_id)
-    ih(block_index_shift, rest[1:], i + 1, False, [], vline, rule_id)
-    ih(block_index_shift, rest[1:], i + 1, in_block, rules, vline, rule_id)
-    return block_scan(rest, i + 1, in_block, rules, vline + 1, rule_id) == block_scan(rest, i, in_block, rules, vline, rule_id)
+        return block_scan(rest, i + 1, in_block, rules, covers, vline + 1, rule_id) == \
+            block_scan(rest, i, in_block, rules, covers, vline, rule_id)
+    ih(block_index_shift, rest[1:], i + 1, True, start_rules(rest[0]), i <= vline, vline, rule_id)
+    ih(block_index_shift, rest[1:], i + 1, False, [], covers, vline, rule_id)
+    ih(block_index_shift, rest[1:], i + 1, in_block, rules, covers, vline, rule_id)
+    return block_scan(rest, i + 1, in_block, rules, covers, vline + 1, rule_id) == \
+        block_scan(rest, i, in_block, rules, covers, vline, rule_id)
 
 
 @lemma(props=["C13"], types=dict(line=Str, lines=SeqOf(Str), v=ViolationT),
@@ -219,7 +221,7 @@ def block_top_shift(line, lines, v):
     not covered by a lemma here."""
     if is_start(line) or is_end(line) or v.line < 1:
         return True
-    use(block_index_shift, lines, 1, False, [], v.line, v.rule_id)
+    use(block_index_shift, lines, 1, False, [], False, v.line, v.rule_id)
     reveal(block_ignores, [line] + lines, v.line + 1, v.rule_id)
     reveal(block_ignores, lines, v.line, v.rule_id)
     return call(IG + "_check_block_ignore", [line] + lines, shifted(v, 1)) == call(IG + "_check_block_ignore", lines, v)
